@@ -52,7 +52,7 @@ UNITS += [
     c17_unit('CoreT.copy', dict(cls=r'^ffsm2::detail::CoreT<', kind='ctor', name='CoreT', nparams=1, sig=r'^void \(const ffsm2::detail::CoreT'),
              {'@target': dict(requires=[fresh('self'), fresh('other'), 'g_s < ' + c10.CAP], assigns=['*self'],
                               ensures=[('C17', same_field('context') + ' && ' + same_field('logger')),
-                                       ('C17', 'self->registry.active == other->registry.active && self->registry.requested == other->registry.requested'),
+                                       ('C17,C01', 'self->registry.active == other->registry.active && self->registry.requested == other->registry.requested'),
                                        ('C17', t_eq('self->request', '(*other)->request'.replace('(*other)->', 'other->'))),
                                        # the copy reports the same previous transition (F3: the hand-written constructor skipped it)
                                        ('C17,C11', t_eq('self->previousTransition', 'other->previousTransition')),
@@ -83,9 +83,12 @@ UNITS += [
                                     + [('C17', 'self->_apex._opaque == {p0}->_apex._opaque')]),
                     '@re:^CoreT__cctor': CORE_COPY}),
     dict(id='c17.RV_.copy', witness=W, recs=M_RECS, opaque=OPAQUE + [r'^ffsm2::detail::C_<'], opaque_keep={'PlanDataT': ['planExists']}, props=['C17', 'C01', 'C18'], consts=CONSTS, ghost=GHOST,
+         need_consts=['ArgsT.STATE_COUNT', 'R_.SUBSTITUTION_LIMIT'],
          target=dict(cls=r'^ffsm2::detail::RV_<', kind='ctor', name='RV_', nparams=1, sig=r'^void \(const ffsm2::detail::RV_'),
-         calls={'re:^R___cctor': 'contract'},
+         calls={'re:^R___cctor': 'contract', 'R___initialEnter': 'contract', 'R___finalExit': 'contract'},
          # copying runs no callback (the copy inherits "entered": no clock tick, protocol ghosts untouched)
          contracts={'@target': dict(requires=[fresh('self'), fresh('other')], assigns=['*self'], ensures=copy_ens('self->_b0._core', 'other->_b0._core') + [('C17', 'g_clock == __CPROVER_old(g_clock)')]),
-                    '@re:^R___cctor': dict(requires=[], assigns=['*self'], ensures=[e[1].replace('self->_core', 'self->_core').replace('_unnamed0->', '{p0}->') for e in copy_ens('self->_core', '_unnamed0->_core')])}),
+                    '@re:^R___cctor': dict(requires=[], assigns=['*self'], ensures=[e[1].replace('self->_core', 'self->_core').replace('_unnamed0->', '{p0}->') for e in copy_ens('self->_core', '_unnamed0->_core')]),
+                    # (not called by a copy constructor; present so that one that does is checked against their preconditions)
+                    'R___initialEnter': dict(R_IE, optional=True), 'R___finalExit': dict(R_FE, optional=True)}),
 ]
